@@ -392,6 +392,13 @@ def solve (P : Params C D) (cfg : Cfg) (dr : Draws D) (tp : TransProbs) (init : 
 
 end Loop
 
+/-! ## `SolverResult.sort_by` (solver_result.py): rows of the result table stably sorted by one column -/
+
+/-- `sorted(rows, key=lambda x: x[p_index])` with a score-valued column: Python's sort is stable and only uses `<` on
+    the keys (`a` stays before `b` unless `key b < key a`) -/
+def sortRowsBy {α : Type} (key : α → Score) (rows : List α) : List α :=
+  rows.mergeSort fun a b => (key a).le (key b)
+
 /-! ## The hypothesis of the class-level theorems, as a computable check -/
 
 /-- on the scores in `l`: `isclose` is reflexive, symmetric, transitive, and its classes are ordered consistently with
